@@ -71,6 +71,7 @@ class EnipWorld(object):
                     self.sched.traced_codes[c] = 'closure'
         self.sched.count_calls = count_calls
         self.violations = []
+        self.harness_errors = []
         self.sessions = []
         self.threads = []
         self.samples = []
@@ -256,6 +257,9 @@ class EnipWorld(object):
                 fn()
             except Violation:
                 pass
+            except Exception:
+                import traceback
+                self.harness_errors.append('%s: %s' % (name, traceback.format_exc()[-2500:]))
         th = self.sched.spawn(guarded, name=name)
         self.threads.append(th)
         return th
@@ -281,6 +285,8 @@ class EnipWorld(object):
             probes=s.probes, preempts=s.preempts, sig=s.sched_sig.hexdigest()[:16],
             uncaught=s.uncaught, policy=s.policy, notes=self.notes,
         )
+        if self.harness_errors:
+            res['error'] = 'HARNESS: ' + ' | '.join(self.harness_errors)[:4000]
         if self.samples:
             res['sample'] = self.samples[:40]
         if self.violations:
@@ -625,7 +631,7 @@ def gen_fit(g, src, tname, unique, fit):
     the tag's own type tname."""
     from ref.model import representable
     v = convert(src, gen_value(g, src, unique))
-    if fit and src != tname and not representable(tname, v):
+    if fit and src != tname and src not in STRINGS and tname not in STRINGS and not representable(tname, v):
         if src in rc.INT_RANGE and tname in rc.INT_RANGE:
             lo = max(rc.INT_RANGE[src][0], rc.INT_RANGE[tname][0])
             hi = min(rc.INT_RANGE[src][1], rc.INT_RANGE[tname][1])
@@ -655,7 +661,7 @@ def gen_op(g, model, unique, kinds=None, boundary=0, cross=0, allow_addr=True, t
             vals = [gen_value(g, tname, unique) for _ in range(L)] if tname not in STRINGS else []
             data = rc.enc_elems(tname, vals) if tname not in STRINGS else b'\x01a'
             if boundary and g.chance(boundary, 20, 'sasb'):
-                data = data[:-1] if g.draw(2, 'sl') and data else data + b'\x00'
+                data = data[:-1] if g.draw(2, 'sl') and len(data) > 1 else data + b'\x00'
             op['data'] = data
         return op
     ref, sp = pick_ref(g, model, tag, allow_addr)
@@ -699,7 +705,8 @@ def gen_op(g, model, unique, kinds=None, boundary=0, cross=0, allow_addr=True, t
     if kind == 'write':
         m = max(n, 0)
         if edge and g.chance(1, 3, 'wshort'):
-            m = max(0, n - 1)
+            m = n - 1
+        m = max(m, 1)           # a write without any data is malformed, not merely out of range
         op['values'] = [gen_fit(g, src, tname, unique, fit) for _ in range(min(m, 1300))]
         return op
     # writefrag: a piece of the transfer [idx, idx+n)
